@@ -247,11 +247,13 @@ pub fn sites(_tier: Tier) -> Vec<Site> {
         let mut forms: Vec<Vec<u8>> = tracks.iter().filter_map(|(_, t)| wire(t)).collect();
         forms.extend([b"BL1\0\0X".to_vec(), b"bl1\0\0\0".to_vec(), b"ZZ9\0\0\0".to_vec(), vec![0; 6], b"RO11XY".to_vec()]);
         let forms = Arc::new(forms);
-        let n = forms.len() as u64 * 32 * 2;
+        let n = forms.len() as u64 * 32 * 2 * 32;
         sites.push(Site::new("short-reads", n,
-            "every variant's wire form and five non-codes x field at stream offset {0, 3} x every way a reader can deliver the 6 bytes in pieces (32 compositions)",
+            "every variant's wire form and five non-codes x field at stream offset {0, 3} x every way a reader can deliver the 6 bytes in pieces (32 compositions) x every subset of the first 5 read calls failing with Interrupted (EINTR: retry)",
             move |i, acc| {
                 acc.eval();
+                let intr = i % 32;
+                let i = i / 32;
                 let f = &forms[(i / 64) as usize];
                 let off = if (i / 32) % 2 == 0 { 0usize } else { 3 };
                 let mask = (i % 32) << off;
@@ -266,11 +268,13 @@ pub fn sites(_tier: Tier) -> Vec<Site> {
                 };
                 let chopped = guard(|| {
                     let mut c = crate::choppy::Choppy::new(data.clone(), mask, 64);
+                    c.interrupt_calls = intr;
                     let _ = std::io::Seek::seek(&mut c, std::io::SeekFrom::Start(off as u64));
                     let r = Track::read_le(&mut c);
                     (format!("{r:?}"), c.position())
                 });
-                let replay = json!({"site": "short-reads", "index": i, "bytes": hex(f), "offset": off, "cuts": mask >> off});
+                let replay = json!({"site": "short-reads", "index": i * 32 + intr, "bytes": hex(f), "offset": off, "cuts": mask >> off, "interrupted_calls": intr});
+                let i = i * 32 + intr;
                 match chopped {
                     Err(p) => acc.violate(i, "C14|short-read|panic".into(), p, replay),
                     Ok(c) if c == plain => { acc.class("short-read-agrees"); acc.nontrivial(); },
